@@ -52,6 +52,13 @@ func muxRoutes(p *Prog) []muxRoute {
 				for _, row := range rows {
 					row.Instr, row.Pos, row.In = i, posOf(i), fn
 					row.Anchor = loopAnchor(i)
+					if pa, isPa := stripFieldParam(args[0]); isPa {
+						/* Registered by the body of a range-over-func loop:
+						the call which runs the loop stands for it. */
+						if _, loop, ok := rofElemOf(pa); ok {
+							row.Instr, row.Pos, row.In, row.Anchor = loop, posOf(loop), loop.Parent(), nil
+						}
+					}
 					if nil != row.condAt {
 						/* Registered whenever the row was appended: the
 						append stands for the registration. */
@@ -192,7 +199,8 @@ func tableRoutes(p *Prog, pat, h ssa.Value) []muxRoute {
 	/* A table assembled from literals, some rows appended on some paths. */
 	if cp, okP := cellReadOf(pat); okP {
 		if ch, okH := cellReadOf(h); okH && cp.Index == ch.Index && sameTable(cp.Container, ch.Container) && cp.Field >= 0 && ch.Field >= 0 {
-			if _, isPhi := resolveCell(cp.Container).(*ssa.Phi); isPhi {
+			_, isPhi := resolveCell(cp.Container).(*ssa.Phi)
+			if isPhi || cp.Index == allRows {
 				if runs, ok := p.tablesOf(cp.Container, 0); ok && rangesOverAll(cp.Index, cp.Container, -1) {
 					var out []muxRoute
 					for _, run := range runs {
@@ -328,4 +336,14 @@ func literalElems(arr *ssa.Alloc) (map[int64]ssa.Value, bool) {
 		}
 	}
 	return out, ok && int64(len(out)) == n
+}
+
+// stripFieldParam: v is (a field of) a parameter.
+func stripFieldParam(v ssa.Value) (*ssa.Parameter, bool) {
+	v = stripConv(v, false)
+	if f, ok := v.(*ssa.Field); ok {
+		v = f.X
+	}
+	pa, ok := v.(*ssa.Parameter)
+	return pa, ok
 }
